@@ -463,6 +463,20 @@ parse_next_record_header:
     }
     else if (innerType == SSL_RECORD_TYPE_APPLICATION_DATA)
     {
+        /* Application data is only acceptable under record protection,
+           and only once the handshake is complete or, on a server that
+           accepted early data, while waiting for EndOfEarlyData. */
+        if (!DECRYPTING_RECORDS(ssl) ||
+                (ssl->hsState != SSL_HS_DONE &&
+                 !(MATRIX_IS_SERVER(ssl) &&
+                   ssl->tls13ServerEarlyDataEnabled &&
+                   ssl->hsState == SSL_HS_TLS_1_3_WAIT_EOED)))
+        {
+            ssl->err = SSL_ALERT_UNEXPECTED_MESSAGE;
+            psTraceIntInfo("Application data in bad state: %d\n",
+                    ssl->hsState);
+            goto encodeResponse;
+        }
         if (ssl->hsState == SSL_HS_TLS_1_3_WAIT_EOED)
         {
             if (ssl->sec.tls13ChosenPsk != NULL &&
